@@ -70,6 +70,7 @@ func (e *env) queryTransport(s *hx.Suite, w *rawWorld) {
 		return
 	}
 	gc := codec.NewProtoCodec(s.App.InterfaceRegistry()).GRPCCodec()
+	router := s.App.GRPCQueryRouter()
 	ctx := metadata.NewIncomingContext(context.Background(), metadata.MD{})
 	inputs := map[string]protoreflect.MessageDescriptor{}
 	proto.HybridResolver.RangeFiles(func(fd protoreflect.FileDescriptor) bool {
@@ -146,18 +147,24 @@ func (e *env) queryTransport(s *hx.Suite, w *rawWorld) {
 				case isPanic(r):
 					desc := fmt.Sprintf("gRPC transport: query %s panicked through the re-registered handler on request class [%s]: %s", name, class, r)
 					e.violate("qgrpc-escaped "+name, desc, []string{"# " + desc, fmt.Sprintf("grpcquery %s data=%x", name, bz)})
-				case strings.Contains(r, "panic") || strings.Contains(r, "runtime error") || strings.Contains(r, "nil pointer"):
-					// recovered by the interceptor: whose panic is it?
-					rr, blame, fr := tryBlame(func() error {
-						_, err := m.Handler(cs.impls[i], ctx, func(x interface{}) error { return gc.Unmarshal(bz, x.(proto.Message)) }, nil)
-						return err
-					})
-					_ = rr
-					if strings.HasPrefix(blame, "github.com/functionx/fx-core/") {
-						desc := fmt.Sprintf("gRPC query %s answered a malformed request with a recovered panic; the handler panics in fx-core code: %s: %s; request class [%s]", name, blame, r, class)
+				case strings.Contains(r, "code = Internal") || strings.Contains(r, "panic") || strings.Contains(r, "runtime error") || strings.Contains(r, "nil pointer"):
+					// possibly a panic recovered by the interceptor (it answers codes.Internal with the panic value as text; handlers
+					// also answer Internal on purpose).  The interceptor has swallowed the stack: ask the registered route handler
+					// directly (no recovery in between) to see whether the handler panics and whose frame it is
+					blame, fr, rr := "", "", ""
+					if h := router.Route("/" + name); h != nil {
+						if qctx, err := s.App.CreateQueryContext(0, false); err == nil {
+							rr, blame, fr = tryBlame(func() error { _, err := h(qctx, &abci.RequestQuery{Path: "/" + name, Data: bz}); return err })
+						}
+					}
+					switch {
+					case isPanic(rr) && strings.HasPrefix(blame, "github.com/functionx/fx-core/"):
+						desc := fmt.Sprintf("gRPC query %s answered a malformed request with a recovered panic (gRPC transport, codes.Internal); the handler panics in fx-core code: %s: %s; request class [%s]", name, blame, rr, class)
 						e.violate("qgrpc "+name, desc, []string{"# " + desc, "# frames: " + fr, fmt.Sprintf("grpcquery %s data=%x", name, bz)})
-					} else {
+					case isPanic(rr):
 						e.out.Count("qgrpc-dependency-panic")
+					default:
+						e.out.Count("qgrpc-err-internal")
 					}
 				case r == "ok":
 					e.out.Count("qgrpc-ok")
